@@ -359,7 +359,9 @@ def run_check(pid: str, modname: str, tier: str, level: str, argv=()):
     if harness_errors:
         for e in harness_errors[:10]:
             print("HARNESS-ERROR:", e, file=sys.stderr)
-        return 2
+        if not lines:
+            return 2
+        # replayed violations are real whatever else went wrong: report them (exit 1), the harness errors stay on stderr
     for ln in lines[:50]:
         print(ln)
     if len(lines) > 50:
